@@ -114,7 +114,7 @@ func (p *propC05) ProbeNames() []string {
 func (p *propC05) Prepare(seed uint64, tier string) int {
 	p.seed, p.tier = seed, tier
 	p.count = 500000
-	if tier == "thorough" {
+	if isThorough(tier) {
 		p.count = 8000000
 	}
 	return p.count
@@ -426,7 +426,7 @@ func (p *propC06) Prepare(seed uint64, tier string) int {
 		}
 	}
 	p.count = 600000
-	if tier == "thorough" {
+	if isThorough(tier) {
 		p.count = 8000000
 	}
 	return p.count
